@@ -695,6 +695,20 @@ impl Compiler {
                 self.compile_index_expression(expr)?;
             }
             Expression::Assign(expr) => {
+                // Only a name, an indexed element or a property can be assigned to;
+                // anything else would be compiled as a value and left on the stack
+                if !matches!(
+                    *expr.left,
+                    Expression::Ident(_)
+                        | Expression::Index(_)
+                        | Expression::Dot(_)
+                        | Expression::Prop(_)
+                ) {
+                    return Err(CompileError::new(
+                        "invalid assignment target",
+                        expr.token.line,
+                    ));
+                }
                 // compile the expression on the right side of the assignment
                 self.compile_expression(*expr.right)?;
                 self.compile_expression(*expr.left)?;
@@ -1227,6 +1241,17 @@ impl Compiler {
     }
 
     fn compile_dot_expression(&mut self, expr: DotExpr) -> Result<(), CompileError> {
+        // What follows the dot must be a property: any other expression would
+        // push a second value instead of consuming the first
+        let is_prop = match expr.property.as_ref() {
+            Expression::Prop(_) => true,
+            // 'x.prop = value' is parsed as the assignment 'prop = value' after the dot
+            Expression::Assign(a) => matches!(*a.left, Expression::Prop(_)),
+            _ => false,
+        };
+        if !is_prop {
+            return Err(CompileError::new("invalid property", expr.token.line));
+        }
         // Compile the expression whose property is being accessed
         self.compile_expression(*expr.left)?;
         // Compile the property expression
